@@ -792,6 +792,8 @@ func c18FirstDiff(a, b interface{}) string {
 func runC18(cases string, res *Result) {
 	c18LongLists(res)
 	c18Aliases(res)
+	c18WrappedAssignments(res)
+	c18NestedInterfaceMaps(res)
 	var smoke []c18Seq
 	private := map[string]bool{"sort": true, "reverse": true, "merge": true, "keys": true, "split": true}
 	filters := (&twig.CoreExtension{}).GetFilters()
@@ -1165,4 +1167,104 @@ func c18Sentinel(t reflect.Type) reflect.Value {
 		return reflect.ValueOf(-987654)
 	}
 	return reflect.Zero(t)
+}
+
+// c18Family: every template rendered twice on one context built by mk; the context must be what it was (types
+// included) and the two outputs equal. Errors are results like any other.
+func c18Family(res *Result, stream string, mk func() map[string]interface{}, support map[string]string, tpls []string) {
+	for ti, src := range tpls {
+		ctx := mk()
+		before := c18DeepCopy(reflect.ValueOf(ctx), 0).Interface()
+		eng := twig.New()
+		for n, s := range support {
+			if err := eng.RegisterString(n, s); err != nil {
+				panic("c18 " + stream + ": support template " + n + ": " + err.Error())
+			}
+		}
+		c := Case{"stream": stream, "tpl": src}
+		res.Hist["stream:"+stream]++
+		res.Evaluations++
+		res.count(stream+"/"+src, true)
+		if err := eng.RegisterString("t", src); err != nil {
+			res.Hist[stream+":does not parse"]++
+			if ti < 0 {
+				return
+			}
+			continue
+		}
+		func() {
+			defer func() {
+				if r := recover(); r != nil {
+					res.add(Finding{Kind: "oracle", Where: stream, Case: c, Detail: fmt.Sprintf("panic: %v", r)})
+				}
+			}()
+			out1, err1 := eng.Render("t", ctx)
+			if !reflect.DeepEqual(ctx, before) {
+				res.add(Finding{Kind: "oracle", Where: stream, Case: c, Expected: "the context as it was handed over",
+					Observed: c18FirstDiff(before, ctx), Detail: "a render changed the caller's context: " + src})
+				return
+			}
+			out2, err2 := eng.Render("t", ctx)
+			if out1 != out2 || (err1 == nil) != (err2 == nil) {
+				res.add(Finding{Kind: "oracle", Where: stream, Case: c, Expected: out1, Observed: out2, Detail: "two renders that share context data differ: " + src})
+			}
+			if !reflect.DeepEqual(ctx, before) {
+				res.add(Finding{Kind: "oracle", Where: stream, Case: c, Expected: "the context as it was handed over",
+					Observed: c18FirstDiff(before, ctx), Detail: "the second render changed the caller's context: " + src})
+			}
+		}()
+	}
+}
+
+// every assigning statement inside every construct that has a body, with nothing assigning outside it: the
+// caller's map holds the very names the template assigns
+func c18WrappedAssignments(res *Result) {
+	mk := func() map[string]interface{} {
+		return map[string]interface{}{"n": 1, "xs": []interface{}{1, 2}, "v": "keep-v", "k": "keep-k", "loop": "keep-loop", "s": "str",
+			"m": map[string]interface{}{"a": 1, "b": 2}, "L": "keep-L", "f": "keep-f", "w": nil}
+	}
+	wrappers := [][2]string{{"{% spaceless %}", "{% endspaceless %}"}, {"{% apply upper %}", "{% endapply %}"}, {"{% block b %}", "{% endblock %}"},
+		{"{% if true %}", "{% endif %}"}, {"{% if false %}{% else %}", "{% endif %}"}, {"{% if false %}{% elseif n %}", "{% endif %}"},
+		{"{% block b %}{% spaceless %}", "{% endspaceless %}{% endblock %}"}, {"{% if n %}{% spaceless %}{% apply lower %}", "{% endapply %}{% endspaceless %}{% endif %}"},
+		{"{% spaceless %}{% if true %}", "{% endif %}{% endspaceless %}"}, {"<div>{% spaceless %}<p>", "</p>{% endspaceless %}</div>"}, {"", ""}}
+	bodies := []string{"{% set n = n + 1 %}{{ n }}", "{% set w = 'W' %}{% set brand_new = 1 %}{{ w }}{{ brand_new }}", "{% for v in xs %}{{ loop.index }}{{ v }}{% endfor %}",
+		"{% for k, v in m %}{{ k }}={{ v }}{% endfor %}", "{% for v in [] %}x{% else %}{% set n = 9 %}{% endfor %}{{ n }}", "{% import 'lib' as L %}{{ L.f() }}",
+		"{% from 'lib' import f %}{{ f() }}", "{% set xs = xs|merge([3]) %}{{ xs|length }}", "{% do n %}{% set m = {'z': 1} %}{{ m.z }}"}
+	var tpls []string
+	for _, w := range wrappers {
+		for _, b := range bodies {
+			tpls = append(tpls, w[0]+b+w[1])
+		}
+	}
+	c18Family(res, "wrapped-assignments", mk, map[string]string{"lib": "{% macro f() %}F{% endmacro %}"}, tpls)
+}
+
+// untyped documents that hold maps with interface keys at some depth (what YAML decoders produce) through
+// every built-in that takes a collection
+func c18NestedInterfaceMaps(res *Result) {
+	mk := func() map[string]interface{} {
+		return map[string]interface{}{
+			"doc": map[string]interface{}{
+				"meta": map[interface{}]interface{}{1: "a", 2: "b"},
+				"list": []interface{}{map[interface{}]interface{}{"k": 1, 2: "two"}, "plain"},
+				"deep": map[string]interface{}{"x": []interface{}{[]interface{}{map[interface{}]interface{}{true: 1, "s": []interface{}{1}}}}},
+			},
+			"top": map[interface{}]interface{}{"a": map[interface{}]interface{}{3: 4}},
+			"lst": []interface{}{[]interface{}{map[interface{}]interface{}{5: 6}}},
+		}
+	}
+	filters := []string{"json_encode", "keys", "merge(doc)", "merge(lst)", "length", "first", "last", "join(',')", "sort", "reverse", "slice(0, 1)", "default('d')", "e", "raw",
+		"upper", "format(doc)", "replace(doc)", "url_encode", "striptags", "batch(1)", "column('k')", "json_encode|length", "keys|json_encode", "first|json_encode"}
+	subjects := []string{"doc", "doc.meta", "doc.list", "doc.deep", "doc.deep.x", "top", "lst", "[doc]", "{'w': doc, 'l': lst}"}
+	var tpls []string
+	for _, f := range filters {
+		for _, v := range subjects {
+			tpls = append(tpls, "{{ "+v+"|"+f+" }}")
+		}
+	}
+	for _, v := range subjects {
+		tpls = append(tpls, "{{ json_encode("+v+") }}", "{{ dump("+v+") }}", "{{ max("+v+") }}", "{{ merge("+v+", "+v+")|length }}", "{{ length("+v+") }}",
+			"{{ cycle("+v+", 1) }}", "{% for k, x in "+v+" %}{{ k }}{{ x|json_encode }}{% endfor %}", "{% set c = "+v+" %}{{ c|json_encode }}{{ c|keys|join }}")
+	}
+	c18Family(res, "nested-interface-maps", mk, nil, tpls)
 }
